@@ -70,7 +70,9 @@ theorem executeTx_shape (c : Ctx) (w : World) (bp : Nat) (tx : Tx) : (executeTx 
             · exact Or.inl ⟨_, rfl, rfl, rfl, rfl, rfl⟩
             · split
               · exact Or.inl ⟨_, rfl, rfl, rfl, rfl, rfl⟩
-              · exact finishVm_shape _ _ _ _ _ _ hst
+              · split
+                · exact Or.inl ⟨_, rfl, rfl, rfl, rfl, rfl⟩
+                · exact finishVm_shape _ _ _ _ _ _ hst
           · exact finishVm_shape _ _ _ _ _ _ hst
 
 
@@ -78,7 +80,7 @@ theorem executeTx_shape (c : Ctx) (w : World) (bp : Nat) (tx : Tx) : (executeTx 
 
 /-- the conditions under which a transaction conserves the ledger (see `executeTx_total`) -/
 def TxOK (c : Ctx) (s : BState) (tx : Tx) : Prop :=
-  Signable s.w tx ∧ FdTarget s.w tx ∧ (executeTx c s.w s.bp tx).leak = false
+  SenderOK s.w tx ∧ (executeTx c s.w s.bp tx).leak = false
 
 /-- ... for every transaction of a list, each at the state it is executed on -/
 def TxsOK (c : Ctx) : BState → List Tx → Prop
@@ -102,8 +104,8 @@ theorem txExec_rejected {c : Ctx} {s : BState} {tx : Tx} {e : Rej} (h : (txExec 
 
 theorem txExec_inv {c : Ctx} {s : BState} {tx : Tx} {t0 : Nat} (hi : s.Inv t0) (hok : TxOK c s tx) :
     (txExec c s tx).2.Inv t0 := by
-  obtain ⟨h1, h2, h4⟩ := hok
-  have htot := executeTx_total (c := c) (bp := s.bp) h1 h2 h4
+  obtain ⟨h1, h4⟩ := hok
+  have htot := executeTx_total (c := c) (bp := s.bp) h1 h4
   have hsh := executeTx_shape c s.w s.bp tx
   unfold txExec
   simp only []
